@@ -183,10 +183,23 @@ def r_optkey(prog, tier):
                            for k in n.keywords)
                 named = set(k.arg for k in n.keywords if k.arg is not None)
                 ok = star or need <= named
+                if not ok and any(k.arg is None for k in n.keywords):
+                    # some other dictionary is unpacked: a copy of the options (possibly with entries added or taken
+                    # out), an options object ... - what it holds is not followed
+                    src = [k.value for k in n.keywords if k.arg is None][0]
+                    copies = isinstance(src, ast.Call) and unparse(src.func) == 'dict' and src.args \
+                        and isinstance(src.args[0], ast.Name) and src.args[0].id == f.kwarg
+                    if copies:
+                        ok = True
+                        star = True
+                    else:
+                        ok = None
                 obs.append(Ob('R-OPTKEY/K3', f.fq, 'call `%s(...)` hands on the options %s that the callee '
                               'interprets' % (unparse(n.func), sorted(need)), ok,
                               ('forwards **%s' % f.kwarg) if star else
                               ('passes %s by name' % sorted(named & need)) if ok else
+                              'unpacks `%s`, whose content is not followed' % unparse([k.value for k in n.keywords if k.arg is None][0])[:50]
+                              if ok is None else
                               'the callee never sees option(s) %s' % sorted(need - named),
                               construct='k3:%s:%s' % (unparse(n.func), sorted(need)), line=n.lineno))
     return obs, {'option_key_tests': ntests, 'forwarding_call_sites': nfw}
@@ -474,7 +487,21 @@ def r_decor(prog, tier):
                         verdict, why = False, 'the option %s is only one alternative of `%s`: the decoration can appear ' \
                                               'without it' % (need, fa[1][:70])
                 # positive evidence 2: every condition on this case is understood and none mentions the option
-                understood = all(fa[0] in ('haskey', 'truthy', 'none', 'cmp') or
+                # a condition on something computed from the options (an options object, a flag set from `k in kw`) is
+                # not "a condition that does not mention the option"
+                optish = set()
+                for _r in range(3):
+                    for nm_ in f.locals:
+                        if nm_ in optish or nm_ == kw:
+                            continue
+                        for (_, dv_) in name_defs(f, nm_):
+                            if isinstance(dv_, ast.AST) and any(isinstance(x_, ast.Name) and (x_.id == kw or x_.id in optish)
+                                                                for x_ in ast.walk(dv_)):
+                                optish.add(nm_)
+                import re as _re
+                through_options = any(set(_re.findall(r'[A-Za-z_][A-Za-z0-9_]*', str(t))) & optish
+                                      for fa in fl if fa[0] in ('truthy', 'none', 'cmp', 'opaque') for t in fa[1:] if isinstance(t, str))
+                understood = not through_options and all(fa[0] in ('haskey', 'truthy', 'none', 'cmp') or
                                  (fa[0] == 'opaque' and not any("'%s'" % k in fa[1] for k in DECOR_OPTION_KEYS)
                                   and kw not in fa[1]) for fa in fl)
                 mentions = any(any("'%s'" % k in str(t) for k in need) for fa in fl for t in fa[1:])
@@ -788,7 +815,31 @@ def r_sibling(prog, tier):
                     continue
                 nq += 1
                 kw = f.kwarg
-                ok = kw is not None and ('haskey', kw, 'quiet', False) in [x[0] for x in facts_at(cfg, n.id)]
+                facts_ = [x[0] for x in facts_at(cfg, n.id)]
+                ok = kw is not None and ('haskey', kw, 'quiet', False) in facts_
+                if not ok:
+                    # a message helper: the options arrive in a positional parameter (every caller hands over its own
+                    # options), or the helper prints without asking and every call of it is itself under `not quiet`
+                    sites = [(g_, c_) for g_ in prog.modules['treeinput'].funcs.values() for c_ in walk_own(g_.node)
+                             if isinstance(c_, ast.Call) and prog.callee(c_, g_) == (f.module.name, f.qual)]
+                    via = [p_ for p_ in f.params if ('haskey', p_, 'quiet', False) in facts_]
+                    if via and sites:
+                        i_ = f.params.index(via[0])
+                        hands = [len(c_.args) > i_ and isinstance(c_.args[i_], ast.Name) and c_.args[i_].id == g_.kwarg
+                                 for (g_, c_) in sites]
+                        ok = True if all(hands) else None
+                    elif kw is None and sites and not via:
+                        guarded = []
+                        for (g_, c_) in sites:
+                            nid_ = None
+                            for m_ in g_.cfg.eval_nodes():
+                                if any(x_ is c_ for r_ in g_.cfg.exprs(m_.id) for x_ in ast.walk(r_)):
+                                    nid_ = m_.id
+                            guarded.append(nid_ is not None and g_.kwarg is not None and
+                                           ('haskey', g_.kwarg, 'quiet', False) in [x[0] for x in facts_at(g_.cfg, nid_)])
+                        ok = True if all(guarded) else (None if any(guarded) else False)
+                    elif kw is None and not sites:
+                        ok = None           # a function nothing in the readers calls directly
                 obs.append(Ob('R-SIBLING/QUIET', f.fq, 'message `%s` is suppressed by the quiet option'
                               % unparse(sub)[:60], ok, 'dominated by `not \'quiet\' in params`' if ok else
                               'printed even with quiet', construct='quiet:' + unparse(sub), line=n.lineno))
